@@ -29,6 +29,9 @@ structure Srv where
   kind : SrvKind
   addr : Nat
   listenFail : Bool
+  /-- its `Stop()` returns an error (for the http server: the drain timed out).  `Instance.Stop` logs it and goes on to the
+  remaining servers, so it has no effect on the trace. -/
+  stopErr : Bool := false
 deriving DecidableEq, Repr
 
 /-- `s.server.(GracefulServer)` succeeds -/
@@ -131,7 +134,7 @@ def load (g : Nat) (c : Cfg) (isRestart : Bool) (fds : List Nat) : List Event ×
     (andThen (runCbs .su g (c.fail == .startup))
       (andThen (listenLoop g fds 0 c.servers) (serves g c.servers.length, true)))
 
-/-- `Instance.Stop`: `Stop()` on every GracefulServer, in order -/
+/-- `Instance.Stop`: `Stop()` on every GracefulServer, in order — all of them, whatever errors they return -/
 def stopLoop (g : Nat) : Nat → List Srv → List Event
   | _, [] => []
   | k, s :: rest => if s.graceful then .stop g k :: stopLoop g (k + 1) rest else stopLoop g (k + 1) rest
@@ -198,5 +201,38 @@ def runFrom (s : State) : List Op → List (Seg × List Bool)
     (r.2, waitBits r.1) :: runFrom r.1 rest
 
 def run (h : List Op) : List (Seg × List Bool) := runFrom State.init h
+
+/-! ### the signal handlers (sigtrap.go, sigtrap_posix.go) -/
+
+inductive Sig where
+  | term | int | quit | hup
+deriving DecidableEq, Repr
+
+/-- the first signal that is not ignored decides what the process does before it exits -/
+def deciding : List Sig → Option Sig
+  | [] => none
+  | .hup :: rest => deciding rest
+  | s :: _ => some s
+
+/-- a shutdown callback of a live instance returns an error (exit code 4) -/
+def shutdownFails (insts : List Inst) : Bool := insts.any fun i => i.cfg.shutdownErr
+
+/-- what the process does on the deciding signal, and its exit code (`none` = it keeps running):
+SIGTERM runs the shutdown callbacks (once-guarded) and then stops every server; SIGINT runs the shutdown callbacks;
+SIGQUIT exits at once; SIGHUP is ignored. -/
+def sigRun (s : State) (sigs : List Sig) : List Event × Option Nat :=
+  match deciding sigs with
+  | none => ([], none)
+  | some .quit => ([], some 0)
+  | some .int => ((step s (.signal 1)).2.events, some (if !s.once && shutdownFails s.insts then 4 else 0))
+  | some .term =>
+    ((step s (.signal 1)).2.events ++ (step (step s (.signal 1)).1 .stopAll).2.events,
+     some (if !s.once && shutdownFails s.insts then 4 else 0))
+  | some .hup => ([], none)
+
+/-- the process state after a history -/
+def stateAfter (s : State) : List Op → State
+  | [] => s
+  | op :: rest => stateAfter (step s op).1 rest
 
 end Casket.Lifecycle
